@@ -336,6 +336,13 @@ func (op HeapOp) src() string {
 		return set(fmt.Sprintf("(stable-sort < %s (lambda (x) %s))", v(op.A), fp("(mod x 3)")))
 	case "copy":
 		return set(fmt.Sprintf("(concat '%s %s)", op.Type, v(op.A)))
+	case "apply-rest":
+		// the callee's &rest list is a value of its own
+		return set(fmt.Sprintf("(apply (lambda (&rest zs) zs) %s)", v(op.A)))
+	case "apply-sort":
+		return set(fmt.Sprintf("(apply (lambda (&rest zs) (stable-sort < zs)) %s)", v(op.A)))
+	case "funcall-rest":
+		return set(fmt.Sprintf("(funcall (lambda (&rest zs) (stable-sort < zs)) %s)", el))
 	case "append-ts-bytes":
 		return set(fmt.Sprintf("(append 'bytes %s %s)", v(op.A), el))
 	case "sort-str":
@@ -496,6 +503,20 @@ func (h *heap) valid(op HeapOp) bool {
 		return true
 	case "copy":
 		return isSeqV(a)
+	case "apply-rest":
+		return a.k == hRef && a.obj.kind == oList // apply takes a list
+	case "apply-sort":
+		return a.k == hRef && a.obj.kind == oList && allInts(a.obj)
+	case "funcall-rest":
+		if len(op.Elems) == 0 {
+			return false
+		}
+		for _, e := range op.Elems {
+			if strings.HasPrefix(e, "v") {
+				return false
+			}
+		}
+		return true
 	case "append-bytes-v!", "append-bytes-v":
 		return a.k == hRef && a.obj.kind == oBytes && b.k == hRef && b.obj.kind == oBytes
 	case "append-ts-bytes":
@@ -549,8 +570,10 @@ func (h *heap) outSize(op HeapOp) int {
 		return n(a) + len(op.Elems)
 	case "cons", "insert-index", "insert-sorted":
 		return n(a) + 1
-	case "reverse", "map-inc", "select", "reject", "sort", "sort-key", "sort-str", "sort-mod", "copy":
+	case "reverse", "map-inc", "select", "reject", "sort", "sort-key", "sort-str", "sort-mod", "copy", "apply-rest", "apply-sort":
 		return n(a)
+	case "funcall-rest":
+		return len(op.Elems)
 	case "append-ts-bytes":
 		return n(a) + len(op.Elems)
 	case "append-bytes-v!", "append-bytes-v":
@@ -777,6 +800,24 @@ func (h *heap) apply(op HeapOp, callbackFailed bool) {
 		res = a
 	case "copy":
 		res = newSeq(kind, a.obj.cells())
+	case "apply-rest":
+		if a.obj.n == 0 {
+			res = hval{}
+		} else {
+			res = newSeq(oList, a.obj.cells())
+		}
+	case "apply-sort":
+		cs := append([]hval(nil), a.obj.cells()...)
+		sort.SliceStable(cs, func(i, j int) bool { return cs[i].i < cs[j].i })
+		if len(cs) == 0 {
+			res = hval{}
+		} else {
+			res = newSeq(oList, cs)
+		}
+	case "funcall-rest":
+		cs := elems()
+		sort.SliceStable(cs, func(i, j int) bool { return cs[i].i < cs[j].i })
+		res = newSeq(oList, cs)
 	case "append-ts-bytes":
 		nb := append([]byte(nil), a.obj.b...)
 		for _, e := range op.Elems {
@@ -862,7 +903,7 @@ func (heapEngine) Gen(r *Rand, tier string) any {
 	}
 	kinds := []string{"list", "vector", "map", "bytes", "mkseq", "alias", "slice", "slice", "cdr", "rest", "append", "append", "cons", "reverse",
 		"map-inc", "select", "reject", "zip", "insert-index", "insert-sorted", "concat", "assoc", "dissoc", "keys", "nth", "get", "length",
-		"assoc!", "assoc!", "dissoc!", "append!", "append!", "append!", "append-bytes!", "append-bytes", "slice-bytes", "append!-bytes", "sort", "sort", "sort", "sort-key", "sort-str", "sort-str", "keys", "sort-mod", "sort-mod", "copy", "copy", "append-ts-bytes", "append-bytes-v!", "append-bytes-v!", "append-bytes-v"}
+		"assoc!", "assoc!", "dissoc!", "append!", "append!", "append!", "append-bytes!", "append-bytes", "slice-bytes", "append!-bytes", "sort", "sort", "sort", "sort-key", "sort-str", "sort-str", "keys", "sort-mod", "sort-mod", "copy", "copy", "append-ts-bytes", "append-bytes-v!", "append-bytes-v!", "append-bytes-v", "apply-rest", "apply-rest", "apply-sort", "apply-sort", "funcall-rest"}
 	var planned []HeapOp
 	for len(c.Ops) < n {
 		// repair: a backing left in unknown order is re-sorted next
@@ -936,6 +977,14 @@ func (heapEngine) Gen(r *Rand, tier string) any {
 					want(isKind(oVec))
 				case "append-bytes-v!", "append-bytes-v":
 					want(isKind(oBytes))
+					if r.Bool() {
+						// prefer an empty accumulator
+						for vi, v := range h.vars {
+							if isKind(oBytes)(v) && len(v.obj.b) == 0 {
+								op.A = vi
+							}
+						}
+					}
 					var cands []int
 					for vi, v := range h.vars {
 						if isKind(oBytes)(v) {
@@ -947,6 +996,10 @@ func (heapEngine) Gen(r *Rand, tier string) any {
 					}
 				case "append-bytes!", "append-bytes", "slice-bytes", "append!-bytes", "append-ts-bytes":
 					want(isKind(oBytes))
+				case "apply-sort":
+					want(func(v hval) bool { return isKind(oList)(v) && v.obj.n >= 2 && allInts(v.obj) })
+				case "apply-rest":
+					want(isKind(oList))
 				case "slice", "rest", "reverse", "append", "nth", "concat", "zip", "insert-index", "copy":
 					want(isSeqV)
 				case "cdr", "cons":
@@ -986,6 +1039,8 @@ func (heapEngine) Gen(r *Rand, tier string) any {
 						op.I = r.Range(0, len(a.obj.b))
 						op.J = r.Range(op.I, len(a.obj.b))
 					}
+				case "funcall-rest":
+					op.Elems = intsN(2, 4)
 				case "append!-bytes", "append-ts-bytes":
 					op.Elems = intsN(1, 3)
 				case "append", "append!":
@@ -1032,6 +1087,12 @@ func (heapEngine) Gen(r *Rand, tier string) any {
 			continue
 		}
 		h.apply(op, fails)
+		// two byte strings joined in place: grow each of them in place afterwards
+		if op.Kind == "append-bytes-v!" && !fails && len(planned) == 0 && op.A != op.B && r.Chance(2, 3) {
+			planned = append(planned,
+				HeapOp{Kind: "append-bytes!", Dst: op.B, A: op.B, Key: "q", Type: "list"},
+				HeapOp{Kind: "append-bytes!", Dst: op.A, A: op.A, Key: "r", Type: "list"})
+		}
 		// a container that holds containers: reach in, change the element in
 		// place, and let the closing inspection look at both
 		if res := h.vars[op.Dst]; !fails && len(planned) == 0 && isSeqV(res) && res.obj.n > 0 && r.Chance(1, 3) {
